@@ -7,9 +7,9 @@ Byte-level primitives: model of `versatiles_core/src/io/value_reader.rs`,
 * bytes are `List UInt8`;
 * a reader (`Cursor<&[u8]>` + `len`) is `Reader = {pos, rest}`: `pos` bytes of the slice are
   consumed, `rest` is what is left (`len = pos + rest.length`); a sub-reader starts at `pos = 0`;
-* every Rust site that can panic in the dev profile is an explicit `Outcome.panic`:
-  `start + length` in `get_sub_reader` (u64 overflow), `vec![0u8; n]` / `Blob::new_sized(n)` with an
-  announced length above `isize::MAX` ("capacity overflow") in `read_string` / `read_blob`;
+* Rust sites that can panic in the dev profile are explicit `Outcome.panic`s; since the length guards of
+  `fix:` 4706f789 (`checked_add` in `get_sub_reader`, `ensure!(length <= remaining)` in `read_string` /
+  `read_blob`) the primitives themselves have none left – `VtProps.C19` proves that;
 * two's-complement expressions are modelled by their arithmetic meaning
   (`x >> 1` on `u64` = `/ 2`, `x ^ -(b)` with `b ∈ {0,1}` = conditional complement `-x-1`,
   `as i64` = wrap at 2^63, `as u32` = `% 2^32`); the correspondence stream `C11p` runs the real
@@ -119,11 +119,11 @@ def readPbfKey (r : Reader) : Outcome ((Nat × Nat) × Reader) :=
 /-- `write_pbf_key(field, wire)`; all callers pass constants with `wire < 8`. -/
 def writePbfKey (f w : Nat) : Bytes := writeVarint (f * 8 + w)
 
-/-- `get_sub_reader(length)` (value_reader_slice.rs:120-142): `start + length` is an unchecked
-    `u64` addition (panic on overflow in the dev profile); beyond the end → `Err`. Returns the
-    sub-slice and the advanced parent reader. -/
+/-- `get_sub_reader(length)` (value_reader_slice.rs, after `fix:` 4706f789): `start.checked_add(length)`
+    – overflow or an end beyond the slice → `Err`. Returns the sub-slice and the advanced parent
+    reader.  (Before that commit the addition was unchecked: a panic in the dev profile, defect F13.) -/
 def subReader (r : Reader) (n : Nat) : Outcome (Bytes × Reader) :=
-  if r.pos + n ≥ U64 then .panic
+  if r.pos + n ≥ U64 then .err
   else if n > r.rest.length then .err
   else .ok (r.rest.take n, ⟨r.pos + n, r.rest.drop n⟩)
 
@@ -134,16 +134,12 @@ def readPbfSub (r : Reader) : Outcome (Bytes × Reader) :=
   | .err => .err
   | .panic => .panic
 
-/-- Lengths at or above this make `vec![0u8; n]` panic deterministically ("capacity overflow",
-    `n > isize::MAX`). Below it an oversized announced length is allocated first and the following
-    `read_exact` fails (`Err`) – or the allocator aborts the process, which depends on the machine
-    (defect F13, owned by C19). -/
-def allocLimit : Nat := 2 ^ 63
-
-/-- `read_blob(length)` / the byte part of `read_string(length)` (value_reader.rs:118-128):
-    allocate the announced length, then `read_exact`. -/
+/-- `read_blob(length)` / the byte part of `read_string(length)` (value_reader.rs, after `fix:`
+    4706f789): `ensure!(length <= self.remaining())` before anything is allocated, then `read_exact`.
+    (Before that commit the announced length was allocated first: capacity-overflow panic or
+    allocator abort for huge lengths, defect F13.) -/
 def readBytes (r : Reader) (n : Nat) : Outcome (Bytes × Reader) :=
-  if n > r.rest.length then (if n ≥ allocLimit then .panic else .err)
+  if n > r.rest.length then .err
   else .ok (r.rest.take n, ⟨r.pos + n, r.rest.drop n⟩)
 
 /-! UTF-8 well-formedness (Unicode 15, table 3-7) – what `String::from_utf8` accepts. -/
